@@ -101,13 +101,23 @@ def build_own(ctx):
 
 
 def prepare(ctx, obligations):
+    import time
+    t = [time.time()]
+
+    def lap(name):
+        t.append(time.time())
+        ctx.notes.append("stage %s: %.1fs" % (name, t[-1] - t[-2]))
     run_translator(ctx)
     ctx.gate(["Base", "Eval", "C14"])
     built = build_own(ctx)
+    lap("translate+coq")
     if obligations:
         ctx.prove(PROOF_MODULES, obligations)
+        lap("obligations")
     drv = ctx.build_driver("c14_driver", cfg="llvm")
+    lap("library+driver")
     model = ctx.build_model("C14" + vlib.TAG, "C14/Extract.v", "c14_main.ml", "semodel", extra_ml=["expr_io.ml"]) if built else None
+    lap("model")
     return drv, model
 
 
